@@ -28,5 +28,13 @@ theorem tie_strike_objective (k s t rd rf v : ℝ) (m ty : Int) (tg : ℝ) :
 theorem tie_forward (t s ff fd : ℝ) : FXP.fx_forward t s ff fd = FXR.fx_forward t s ff fd := rfl
 theorem tie_forward_value (t s dd tf ff fd K N : ℝ) (nc dn fn : Int) :
     FXP.fx_forward_value t s dd tf ff fd K N nc dn fn = FXR.fx_forward_value t s dd tf ff fd K N nc dn fn := rfl
+theorem tie_vanilla_vega (t s dd df K v : ℝ) :
+    FXP.fx_vanilla_vega BSR.nprime t s dd df K v = FXR.fx_vanilla_vega t s dd df K v := rfl
+theorem tie_vanilla_gamma (t s dd df K v : ℝ) :
+    FXP.fx_vanilla_gamma BSR.nprime t s dd df K v = FXR.fx_vanilla_gamma t s dd df K v := rfl
+theorem tie_vanilla_theta (t s dd df K v : ℝ) (ty : Int) :
+    FXP.fx_vanilla_theta BSR.N BSR.nprime t s dd df K v ty = FXR.fx_vanilla_theta t s dd df K v ty := rfl
+theorem tie_digital_value (td te s dd df K N v : ℝ) (ty pc dn fn : Int) :
+    FXP.fx_digital_value BSR.n_vect td te s dd df K N v ty pc dn fn = FXR.fx_digital_value td te s dd df K N v ty pc dn fn := rfl
 
 end FinVerif.Props.C10
